@@ -199,4 +199,61 @@ theorem segments_on_arc {x1 y1 x2 y2 Rx0 Ry0 : ℝ} (phi : ℝ) (la sw : Bool)
 example := segments_on_arc (x1 := 0) (y1 := 0) (x2 := 2) (y2 := 0) (Rx0 := 1) (Ry0 := 1) 0 true true
   one_pos one_pos (by simp) 2 (by norm_num)
 
+
+/-! ## The control points: each cubic is tangent to the ellipse at both of its ends -/
+
+theorem arcCtrl1G_real (c : ArcCentre ℝ) (θ1 θ2 : ℝ) :
+    arcCtrl1G c θ1 θ2 =
+      (c.cx + c.cosPhi * (c.Rx * (cos θ1 - arcArmG θ1 θ2 * sin θ1)) - c.sinPhi * (c.Ry * (sin θ1 + arcArmG θ1 θ2 * cos θ1)),
+       c.cy + c.sinPhi * (c.Rx * (cos θ1 - arcArmG θ1 θ2 * sin θ1)) + c.cosPhi * (c.Ry * (sin θ1 + arcArmG θ1 θ2 * cos θ1))) := rfl
+
+theorem arcCtrl2G_real (c : ArcCentre ℝ) (θ1 θ2 : ℝ) :
+    arcCtrl2G c θ1 θ2 =
+      (c.cx + c.cosPhi * (c.Rx * (cos θ2 + arcArmG θ1 θ2 * sin θ2)) - c.sinPhi * (c.Ry * (sin θ2 - arcArmG θ1 θ2 * cos θ2)),
+       c.cy + c.sinPhi * (c.Rx * (cos θ2 + arcArmG θ1 θ2 * sin θ2)) + c.cosPhi * (c.Ry * (sin θ2 - arcArmG θ1 θ2 * cos θ2))) := rfl
+
+/-- the derivative `dP/dθ` of the ellipse parameterisation `θ ↦ arcEndG c θ` -/
+noncomputable def arcTangent (c : ArcCentre ℝ) (θ : ℝ) : ℝ × ℝ :=
+  (c.cosPhi * (-(c.Rx * sin θ)) - c.sinPhi * (c.Ry * cos θ),
+   c.sinPhi * (-(c.Rx * sin θ)) + c.cosPhi * (c.Ry * cos θ))
+
+/-- the first control point is the start point of the segment plus `t` times the tangent there -/
+theorem ctrl1_tangent (c : ArcCentre ℝ) (θ1 θ2 : ℝ) :
+    arcCtrl1G c θ1 θ2 =
+      ((arcEndG c θ1).1 + arcArmG θ1 θ2 * (arcTangent c θ1).1,
+       (arcEndG c θ1).2 + arcArmG θ1 θ2 * (arcTangent c θ1).2) := by
+  rw [arcCtrl1G_real, arcEndG_real]
+  unfold arcTangent
+  refine Prod.ext ?_ ?_ <;> simp only [] <;> ring
+
+/-- the second control point is the end point of the segment minus `t` times the tangent there -/
+theorem ctrl2_tangent (c : ArcCentre ℝ) (θ1 θ2 : ℝ) :
+    arcCtrl2G c θ1 θ2 =
+      ((arcEndG c θ2).1 - arcArmG θ1 θ2 * (arcTangent c θ2).1,
+       (arcEndG c θ2).2 - arcArmG θ1 θ2 * (arcTangent c θ2).2) := by
+  rw [arcCtrl2G_real, arcEndG_real]
+  unfold arcTangent
+  refine Prod.ext ?_ ?_ <;> simp only [] <;> ring
+
+/-- the arm length is the classical `4/3·tan(Δ/4)` of the cubic approximation of a circular arc of angle `Δ` -/
+theorem arcArm_eq (θ1 θ2 : ℝ) (h : sin ((θ2 - θ1) / 2) ≠ 0) :
+    arcArmG θ1 θ2 = 4 / 3 * tan ((θ2 - θ1) / 4) := by
+  have e : arcArmG θ1 θ2 = ((8 : ℤ) : ℝ) * sin ((θ2 - θ1) * (1 / 2) * (1 / 2)) * sin ((θ2 - θ1) * (1 / 2) * (1 / 2)) /
+      (((3 : ℤ) : ℝ) * sin ((θ2 - θ1) * (1 / 2))) := rfl
+  rw [e]
+  have h1 : (θ2 - θ1) * (1 / 2) * (1 / 2) = (θ2 - θ1) / 4 := by ring
+  have h2 : (θ2 - θ1) * (1 / 2) = 2 * ((θ2 - θ1) / 4) := by ring
+  have h3 : (θ2 - θ1) / 2 = 2 * ((θ2 - θ1) / 4) := by ring
+  rw [h3, sin_two_mul] at h
+  rw [h1, h2, sin_two_mul, tan_eq_sin_div_cos]
+  have hs : sin ((θ2 - θ1) / 4) ≠ 0 := fun hh => h (by rw [hh]; ring)
+  have hc : cos ((θ2 - θ1) / 4) ≠ 0 := fun hh => h (by rw [hh]; ring)
+  push_cast
+  field_simp
+  ring
+
+/-- non-vacuity: a quarter turn -/
+example : sin ((π / 2 - 0) / 2) ≠ 0 := by
+  rw [show (π / 2 - 0) / 2 = π / 4 by ring, sin_pi_div_four]; positivity
+
 end Ivg.ArcReal
